@@ -495,11 +495,12 @@ func (root *Root) resolveField(
 
 	if field.ConType == nil {
 		field.ConType = t
-		ea = append(ea, field.sortArgs()...)
-		if 0 < len(ea) {
-			Errors(ea).in(field.key())
-			return
-		}
+	}
+	// Checked on every visit and against the current container type, the
+	// same parsed field can be resolved again and under other types.
+	if ea = append(ea, field.sortArgs(t)...); 0 < len(ea) {
+		Errors(ea).in(field.key())
+		return
 	}
 	const queryType = "Query"
 	var ea2 []error
